@@ -1,6 +1,7 @@
 import Driver.Util
 import Driver.Rid
 import Driver.Cache
+import Driver.Bytes
 /-!
 # amdrv — the model driver
 
@@ -12,6 +13,7 @@ open Driver
 structure Engines where
   rid : Driver.Rid.St := {}
   cache : Driver.Cache.St := {}
+  bytes : Driver.Bytes.St := {}
 
 def dispatch (e : Engines) (ws : List String) : Engines × String :=
   match ws with
@@ -21,6 +23,7 @@ def dispatch (e : Engines) (ws : List String) : Engines × String :=
       let (s, o) := Driver.Rid.step e.rid ws; ({ e with rid := s }, o)
     else if w == "conc.race" then (e, "one-handle")   -- C01_unique_handle / C01_one_winner: every interleaving
     else if w == "conc.probe" then (e, "stable")      -- C01_presence_monotone
+    else if w.startsWith "by." then let (s, o) := Driver.Bytes.step e.bytes ws; ({ e with bytes := s }, o)
     else
       let (s, o) := Driver.Cache.step e.cache ws; ({ e with cache := s }, o)
 
